@@ -237,6 +237,13 @@ def mk_value(ex, kind, tag="v"):
         return [1, 2]
     if kind == "list_bad":
         return [1, "x"]
+    if kind == "symstr":
+        v = ex.str(tag + ".s")
+        if ex.sym:
+            ex.assume(z3.Length(v.e) <= 8)
+        else:
+            ex.assume(len(v) <= 8)
+        return v
     if kind == "tuple_if":
         return (mk_value(ex, "int", tag + "0"), mk_value(ex, "float", tag + "1"))
     if kind == "tuple_fi":
